@@ -395,20 +395,20 @@ roundtrip_vec_u8!(
     c12_roundtrip_vec_u8_64: 64, 68
 );
 
-/// Vec<Option<u16>> of 3 entries with symbolic presence (=> symbolic byte length) and
+/// Vec<Option<u16>> of 2 entries with symbolic presence (=> symbolic byte length) and
 /// Vec<Vec<u8>> with symbolic inner lengths.
 #[kani::proof]
 #[kani::unwind(12)]
 fn c12_roundtrip_vec_option_u16() {
-    let mut v: Vec<Option<u16>> = Vec::with_capacity(3);
+    let mut v: Vec<Option<u16>> = Vec::with_capacity(2);
     let mut i = 0;
-    while i < 3 {
+    while i < 2 {
         v.push(kani::any());
         i += 1;
     }
     roundtrip_check(
         &v,
-        |a, b| a.len() == b.len() && a[0] == b[0] && a[1] == b[1] && a[2] == b[2],
+        |a, b| a.len() == b.len() && a[0] == b[0] && a[1] == b[1],
         16,
     );
     kani::cover!(v[0].is_none() && v[1].is_some());
